@@ -18,7 +18,14 @@ EXPLANATION = (
     "wanted offset; (11) the segment is sliced only on paths that established overlap start == wanted offset (or segment "
     "start <= wanted offset), and the wanted offset / remaining size move by exactly len(bytes written) on every path "
     "through the write; (8) the hash-tree rules of C35 (journaled stores, rollback, conflict checks, propagation to the "
-    "root over every level) as rules C02.8.*. "
+    "root over every level) as rules C02.8.*; (12) what turns the validated ciphertext into the bytes the reader sees: the AES-CTR "
+    "context DecryptingConsumer.write uses can only be the one keyed in that consumer's own constructor from (readkey, offset of "
+    "this read) - every store of it, on every path, nobody else stores it - and ImmutableFileNode.read builds the consumer in the "
+    "call with the offset it reads the ciphertext from; (13) a read() hands its consumer to exactly one byte source: no stage of "
+    "ImmutableFileNode.read / CiphertextFileNode.read / DownloadNode.read hands the read on twice on a path, code of these "
+    "functions that runs on a later turn (a retry errback) hands the consumer to nobody, no stage writes to the consumer itself, "
+    "and a Segmentation's position is set from its arguments and moved only by _got_segment - so what was delivered before an "
+    "error is a prefix of the range. "
     "Undecided: hash collision resistance (this also covers hash trees of the wrong shape, i.e. set_authoritative_num_segments / "
     "the re-sized ciphertext tree: the leaf and pair hashes carry different tags), zfec algebra, Python slice arithmetic, the "
     "values of the offset table and block positions (a wrong position is a wrong block, which the hash checks reject), and all "
@@ -619,9 +626,166 @@ def run(ctx: Context):
                             attr, newval(n, attr), attr, "+" if sign > 0 else "-"))
 
 
+    # -- 12. the decryptor that turns validated ciphertext into what the reader sees ----------
+    from sa.rules import C01 as _C01
+    with ctx.rule("C02.12", "R4/R6", "the AES-CTR context DecryptingConsumer.write decrypts with can only be the one keyed in "
+                  "that consumer's own constructor from (readkey, offset of this read): every store of self._decryptor keeps "
+                  "that create_decryptor(..) call, every path through __init__ passes such a store and then consumes the "
+                  "intra-block residue, nobody else stores it, and ImmutableFileNode.read builds the consumer in the call, "
+                  "with the offset it reads the ciphertext from (rule body shared with C01.7 / C04.5)", expected=3) as r:
+        _C01.run_ctr(ctx, r)
+
+    # -- 13. one byte source per read ----------------------------------------------------------
+    with ctx.rule("C02.13", "R1/E7", "a read() hands its consumer to one byte source: on no path through "
+                  "ImmutableFileNode.read / CiphertextFileNode.read / DownloadNode.read is the read handed on twice, code of "
+                  "these functions that runs on a later turn (callbacks, errbacks) hands the consumer to nobody and no stage "
+                  "writes to it itself; a Segmentation's position (self._offset / self._size) is set from its own arguments in "
+                  "__init__ and afterwards only moved by _got_segment", expected=4) as r:
+        _one_source_per_read(ctx, r, _C01)
+
     # -- 8. hash-tree acceptance / rejection discipline (shared with C35) ----
     from sa.rules import C35 as _C35
     _C35.run(ctx, P="C02.8")
+
+
+def _consumer_names(idx, st):
+    """Names of the stage function that hold this read's consumer or an object wrapped around it (an instance of a
+    package class built with the consumer as argument, e.g. the DecryptingConsumer)."""
+    fn = st.fn
+    names = {st.consumer}
+    defs = def_exprs(fn)
+    for _round in range(3):
+        for nm, vals in defs.items():
+            if "." in nm or nm in names:
+                continue
+            for v in vals:
+                if isinstance(v, ast.Name) and v.id in names:
+                    names.add(nm)
+                elif isinstance(v, ast.Call) and isinstance(idx.resolve_expr(fn.module, v.func), ClassInfo) and any(
+                        isinstance(a, ast.Name) and a.id in names for a in list(v.args) + [k.value for k in v.keywords]):
+                    names.add(nm)
+    return names
+
+
+def _later_calls(fn):
+    """(call, names bound by the enclosing nested defs / lambdas) for every call in code of fn that does not run as part
+    of fn's own control flow: bodies of nested defs and lambdas (Deferred callbacks, eventually(), producers)."""
+    out = []
+
+    def visit(node, shadow, inside):
+        if isinstance(node, (ast.FunctionDef, ast.AsyncFunctionDef, ast.Lambda)):
+            a = node.args
+            bound = {x.arg for x in a.posonlyargs + a.args + a.kwonlyargs}
+            if a.vararg:
+                bound.add(a.vararg.arg)
+            if a.kwarg:
+                bound.add(a.kwarg.arg)
+            # defaults and decorators are evaluated where the function is defined
+            for d in list(a.defaults) + [k for k in a.kw_defaults if k is not None] + list(getattr(node, "decorator_list", [])):
+                visit(d, shadow, inside)
+            for b in (node.body if isinstance(node.body, list) else [node.body]):
+                visit(b, shadow | bound, True)
+            return
+        if isinstance(node, ast.Call) and inside:
+            out.append((node, shadow))
+        for ch in ast.iter_child_nodes(node):
+            visit(ch, shadow, inside)
+
+    for stmt in fn.node.body:
+        visit(stmt, frozenset(), False)
+    return out
+
+
+def _one_source_per_read(ctx, r, _C01):
+    idx = ctx.idx
+    stages = _C01.read_stages(idx)
+    for st in stages:
+        fn = st.fn
+        cfg = st.cfg
+        r.site(fn, st.forwards[0][1], "one byte source per read")
+        names = _consumer_names(idx, st)
+        # (a) the stage's own control flow: the read is handed on at most once on any path (no second attempt, no loop)
+
+        def tr(n, lab, nxt, cnt, _st=st):
+            if lab != "exc" and _st.is_forward(n):
+                return min(cnt + 1, 2)
+            return cnt
+        visited, parent = explore(cfg, 0, tr)
+        r.count(len(visited))
+        twice = sorted((nid, c) for (nid, c) in visited if c >= 2)
+        if twice:
+            w = witness(cfg, parent, twice[0])
+            again = [n for (n, _l) in w.path if st.is_forward(n)]
+            r.violation(fn, fn.loc(again[-1].ast if again else None), "%s hands one read to its byte source twice (%s is passed "
+                        "twice on the path %s): whatever the first one delivered is delivered again, the consumer does not "
+                        "receive a prefix of the requested range" % (short(fn), st.what, w.brief()), w)
+        # (b) code that runs on a later turn - when the first source may already have written to the consumer - starts no
+        # further source for it, and (c) nobody but the source writes to the consumer
+        for (c, shadow) in _later_calls(fn):
+            live = names - set(shadow)
+            passed = [a for a in list(c.args) + [k.value for k in c.keywords] if isinstance(a, ast.Name) and a.id in live]
+            if not passed or call_tail(c) in ("succeed", "providedBy"):
+                continue
+            if isinstance(c.func, ast.Name) and idx.resolve_expr(fn.module, c.func) is None \
+                    and c.func.id not in {g.name for g in _nested_funcs(fn)} and c.func.id not in names:
+                continue        # a builtin (isinstance, type, repr ..): looks at the object, hands it to nobody
+            restart = [a for a in list(c.args) + [k.value for k in c.keywords]
+                       if isinstance(a, ast.Name) and a.id == st.offset and st.offset not in shadow]
+            r.violation(fn, fn.loc(c), "%s hands the consumer of the read to %s from code that runs on a later turn (a callback / "
+                        "errback of the read): by then the first byte source may have delivered part of the range, and %s - the "
+                        "consumer gets bytes twice, i.e. not a prefix of the requested range" % (
+                            short(fn), src(fn, c)[:90],
+                            ("this one starts again at the read's original offset '%s'" % st.offset) if restart else
+                            "nothing establishes that this one resumes where the first one stopped"))
+        for x in ast.walk(fn.node):
+            if isinstance(x, ast.Call) and isinstance(x.func, ast.Attribute) and x.func.attr == "write" \
+                    and isinstance(x.func.value, ast.Name) and x.func.value.id in names:
+                r.violation(fn, fn.loc(x), "%s writes to the consumer itself (%s): the bytes of a read come from its "
+                            "Segmentation only, which keeps the position; anything written besides it is surplus" % (
+                                short(fn), src(fn, x)[:90]))
+    # (d) the position of a Segmentation
+    ci = idx.cls(_C01.SEGM)
+    sinit = idx.func(_C01.SEGM + ".__init__")
+    sp = first_positional_params(sinit)
+    if len(sp) < 4:
+        raise AnchorVanished("Segmentation.__init__ signature changed")
+    r.site(sinit, None, "position set once from the arguments")
+    seen = set()
+    for m in ci.methods.values():
+        for f in [m] + _nested_funcs(m):
+            for n in f.cfg().nodes:
+                for attr, pname in (("self._offset", sp[1]), ("self._size", sp[2])):
+                    if attr not in node_stores(n):
+                        continue
+                    if f is sinit:
+                        v = assign_value(n, attr)
+                        seen.add(attr)
+                        r.require(isinstance(v, ast.Name) and v.id == pname and
+                                  FlowNorm(sinit).rd.get(n.id, {}).get(pname) == frozenset([C.PARAM_DEF]), sinit, sinit.loc(n.ast),
+                                  "Segmentation.%s starts as %s, not as the %s this read was asked for" % (
+                                      attr[5:], src(sinit, v) if v is not None else "?", pname))
+                    elif f.qual != "allmydata." + _C01.SEGM + "._got_segment":
+                        r.violation(f, f.loc(n.ast), "%s sets %s: the position of a read is moved only by _got_segment, by the "
+                                    "bytes it wrote - set anywhere else (a retry, a restart) it no longer says what the consumer "
+                                    "already has" % (short(f), attr))
+    if seen != {"self._offset", "self._size"}:
+        raise AnchorVanished("Segmentation.__init__ no longer stores self._offset and self._size")
+    # nobody outside the class moves it either
+    cg = get_callgraph(idx)
+    mods = {ci.module.name} | {st.fn.module.name for st in stages}
+    for attr in ("_offset", "_size"):
+        for (f, nd) in cg.attr_stores(attr):
+            if f.module.name in mods and attr_path(nd.value) != "self":
+                r.violation(f, f.loc(nd), "%s stores %s of another object (%s): the position of a read is moved only by "
+                            "Segmentation._got_segment" % (short(f), attr, src(f, nd)))
+
+
+def _nested_funcs(fn):
+    out = []
+    for g in fn.nested.values():
+        out.append(g)
+        out.extend(_nested_funcs(g))
+    return out
 
 
 def _edge_leads_only_to_raise(cfg, n, lab):
